@@ -136,7 +136,7 @@ func genWQ(g *genCtx) {
 				if profile == "C09" && r.chance(1, 2) {
 					g.op("otherq resize=%d", []int{1, 3, 50}[r.intn(3)])
 				}
-			case x < 93 && n > 0 && (profile == "C16" || r.chance(1, 3)):
+			case x < 93 && n > 0 && (profile == "C16" || profile == "C09" || r.chance(1, 3)):
 				id := r.intn(n + 1) // n = an id the queue has never seen
 				g.op("deq id=%d", id)
 			case x < 97 && n > 0 && (profile == "C16" || r.chance(1, 3)):
